@@ -961,6 +961,14 @@ class Segment(Geodesic):
         base_ring = utils.guess_literal_ring(end_data)
         dim = end_data.shape[-1]
 
+        if base_ring is None:
+            # the ideal endpoints do not depend on the scale of the
+            # two representatives, but the quadratic below loses
+            # accuracy when their scales differ by many orders of
+            # magnitude
+            end_data = end_data / np.max(np.abs(end_data), axis=-1,
+                                         keepdims=True)
+
         products = end_data @ minkowski(
             dim, base_ring=base_ring
         ) @ end_data.swapaxes(-1, -2)
